@@ -16,6 +16,8 @@ type vJSON struct {
 	S  string   `json:"s,omitempty"`
 	B  bool     `json:"b,omitempty"`
 	Tm *int64   `json:"tm,omitempty"`
+	Tz *int     `json:"tz,omitempty"`  // zone offset in seconds east of UTC
+	Tn string   `json:"tzn,omitempty"` // zone name
 	L  []*V     `json:"l,omitempty"`
 	MK []*V     `json:"mk,omitempty"`
 	MV []*V     `json:"mv,omitempty"`
@@ -36,6 +38,8 @@ func (v *V) MarshalJSON() ([]byte, error) {
 	if v.T != nil && v.T.K == gen.KTime {
 		n := v.Tm.UnixNano()
 		j.Tm = &n
+		name, off := v.Tm.Zone()
+		j.Tz, j.Tn = &off, name
 		j.Txt = v.Tm.UTC().String()
 	}
 	return json.Marshal(j)
@@ -52,6 +56,11 @@ func (v *V) UnmarshalJSON(b []byte) error {
 	}
 	if j.Tm != nil {
 		v.Tm = time.Unix(0, *j.Tm)
+		if j.Tz != nil {
+			if lname, loff := v.Tm.Zone(); lname != j.Tn || loff != *j.Tz {
+				v.Tm = v.Tm.In(time.FixedZone(j.Tn, *j.Tz))
+			}
+		}
 	}
 	return nil
 }
